@@ -1903,15 +1903,47 @@ def rule_suffix_needs_digit(col, facts):
             t = b["t"]
             if t["k"] == "switch" and f.live(i) and "fmt_invalid_digit" in f.macros(b["ts"]):
                 e = strip_casts(op_expr(f, t["d"]))
-                if e[0] == "bin" and e[1] in ("Gt", "Ge", "Lt", "Le", "Ne", "Eq") and strip_casts(e[2])[0] == "bin" and strip_casts(e[2])[1] == "Sub" and any(x[1].endswith("::cursor") for x in expr_calls(e)) \
-                        and strip_casts(e[3])[0] == "k" and strip_casts(strip_casts(e[2])[3])[0] != "k":
-                    # (`cursor - start_index OP <literal>`: the digit-count guard; `cursor - 1 == start_index`, the
-                    #  no-digit test of the partial parser, is a different comparison)
-                    k = strip_casts(e[3])
-                    n += 1
-                    seen = True
-                    ok = (e[1] == "Gt" and k == ("k", 1)) or (e[1] == "Ge" and k == ("k", 2))
-                    col.check(R, name, ok, "the base-suffix branch requires `cursor - start %s %s`; with the cursor already past the suffix byte, at least one digit needs `> 1`" % (e[1], show(k)), f.loc(b["ts"]))
+                # the digit-count guard, however it is spelt: `cursor - start > 1`, `cursor > start + 1`,
+                # `start + 2 <= cursor` ... - a comparison of two linear forms over the cursor and one local, with
+                # literals (`cursor - 1 == start`, the no-digit test of the partial parser, is an equality: not it)
+                if not (e[0] == "bin" and e[1] in ("Gt", "Ge", "Lt", "Le")):
+                    continue
+                def lin(x):
+                    """(coefficient of cursor, {local: coefficient}, constant) or None"""
+                    x = strip_casts(x)
+                    if x[0] == "k" and isinstance(x[1], int) and not isinstance(x[1], bool):
+                        return (0, {}, x[1])
+                    if x[0] == "call" and x[1].endswith("::cursor"):
+                        return (1, {}, 0)
+                    if x[0] == "var":
+                        return (0, {x[1]: 1}, 0)
+                    if x[0] == "bin" and x[1] in ("Add", "Sub"):
+                        a_, b_ = lin(x[2]), lin(x[3])
+                        if a_ is None or b_ is None:
+                            return None
+                        sg = 1 if x[1] == "Add" else -1
+                        d_ = dict(a_[1])
+                        for k_, v_ in b_[1].items():
+                            d_[k_] = d_.get(k_, 0) + sg * v_
+                        return (a_[0] + sg * b_[0], d_, a_[2] + sg * b_[2])
+                    return None
+                l_, r_ = lin(e[2]), lin(e[3])
+                if l_ is None or r_ is None:
+                    continue
+                cc = l_[0] - r_[0]
+                vs = {k_: l_[1].get(k_, 0) - r_[1].get(k_, 0) for k_ in set(l_[1]) | set(r_[1])}
+                vs = {k_: v_ for k_, v_ in vs.items() if v_}
+                kk = l_[2] - r_[2]
+                if abs(cc) != 1 or len(vs) != 1 or list(vs.values())[0] != -cc:
+                    continue
+                # now: cc * (cursor - start) + kk  OP  0 ; as a predicate of d = cursor - start
+                def holds(d):
+                    v = cc * d + kk
+                    return {"Gt": v > 0, "Ge": v >= 0, "Lt": v < 0, "Le": v <= 0}[e[1]]
+                n += 1
+                seen = True
+                ok = (not holds(0)) and (not holds(1)) and holds(2) and holds(3)
+                col.check(R, name, ok, "the base-suffix branch requires `%s`; with the cursor already past the suffix byte, at least one digit needs `cursor - start > 1`" % show(e)[:80], f.loc(b["ts"]))
         col.check(R, name + ":present", seen, "no digit-count guard found on the base-suffix branch", f.loc())
 
 
